@@ -1697,10 +1697,13 @@ def run(chk):
     t1 = time.time()
     part_cwd(chk, T, runner)
     t2 = time.time()
-    part_front(chk, T, runner, jobs)
-    t3 = time.time()
     import sys, c19_spec
-    c19_spec.part_spec(chk, sys.modules[__name__], T, runner, jobs)
+    # the jobs aimed at the nested handlers (every table, 0-3 blocks, file word at every position) also go through the
+    # model/implementation correspondence, so that 'front' covers every handler the refinement theorems quantify over
+    aimed = c19_spec.aimed_jobs(sys.modules[__name__], T, chk.rng)
+    part_front(chk, T, runner, jobs + aimed)
+    t3 = time.time()
+    c19_spec.part_spec(chk, sys.modules[__name__], T, runner, jobs, aimed)
     t3b = time.time()
     part_pairs(chk, T, runner)
     t4 = time.time()
